@@ -419,6 +419,7 @@ def service_part(rep, r, quick, viol):
       total = min(2 * volume, 40 if quick else 120) if 'GRID' in algo else 12
       got, batches, steps, restarts = [], [], [], []
       key = lambda d: json.dumps(d, sort_keys=True)
+      failed = False
       while len(got) < total:
         if r.random() < 0.4:
           serv = vizier_service.VizierServicer(database_url=url)   # server restart: nothing but the database survives
@@ -427,13 +428,22 @@ def service_part(rep, r, quick, viol):
         steps.append(count)
         study = clients.Study(vizier_client.VizierClient(st.name, 'w%d' % r.randrange(2), serv))
         batch = []
-        for t in study.suggest(count=count):
+        try:
+          suggested = study.suggest(count=count)
+        except Exception as e:  # pylint: disable=broad-except
+          viol('%s hosted in the service stopped working (%s)' % (algo, type(e).__name__),
+               {'space': repr(prob.search_space)[:400], 'steps': steps, 'restarts_before_step': restarts, 'error': str(e)[:400]})
+          failed = True
+          break
+        for t in suggested:
           batch.append({k: canon(v) for k, v in t.parameters.items()})
           t.complete(vz.Measurement({'m': 1.0}))
         got += batch
         batches.append(sorted(key(x) for x in batch))
       rep.case({'service': algo, 'steps': steps, 'restarts': restarts, 'grid_volume': volume}, bool(restarts))
       rep.count('service_' + algo)
+      if failed:
+        continue
       sprob = clients.Study(vizier_client.VizierClient(st.name, 'w0', serv)).materialize_problem_statement()
       dmd = sprob.metadata.ns('designer_policy_v0').ns('designer')
       obj = {'algorithm': algo, 'space': repr(prob.search_space)[:500], 'steps': steps, 'restarts_before_step': restarts}
@@ -465,6 +475,40 @@ def service_part(rep, r, quick, viol):
             viol('%s hosted in the service repeats a grid point before every other point has been suggested' % algo,
                  dict(obj, volume=volume, after_batch=bi, most=max(counts.values()), least=min(counts.values())))
             break
+    # evolutionary / eagle designers hosted in the service: they keep working across restarts and their counters advance
+    for si, algo in enumerate(['NSGA2', 'EAGLE_STRATEGY', 'CMA_ES'] * (1 if quick else 4)):
+      prob, meta = spaces.gen_space(r, vz, nmax=3, float_only=(algo == 'CMA_ES'), allow_log=(algo != 'CMA_ES'))
+      sc = svz.StudyConfig.from_problem(prob)
+      sc.algorithm = algo
+      url = 'sqlite:///%s/e%d.db' % (scratch, si)
+      serv = vizier_service.VizierServicer(database_url=url)
+      st = serv.CreateStudy(vs.CreateStudyRequest(parent='owners/o1', study=study_pb2.Study(display_name='e%d' % si, study_spec=sc.to_proto())))
+      done, steps, restarts = 0, [], []
+      rep.case({'service': algo}, True)
+      rep.count('service_' + algo)
+      try:
+        for step in range(5):
+          if r.random() < 0.5:
+            serv = vizier_service.VizierServicer(database_url=url)
+            restarts.append(step)
+          count = r.randrange(1, 4)
+          steps.append(count)
+          study = clients.Study(vizier_client.VizierClient(st.name, 'w', serv))
+          seen_before = done
+          for t in study.suggest(count=count):
+            t.complete(vz.Measurement({'m': float(done)}))
+            done += 1
+          dmd = study.materialize_problem_statement().metadata.ns('designer_policy_v0').ns('designer')
+          if algo == 'NSGA2':
+            seen = dmd.get('num_trials_seen', default=None)
+            if seen is None or int(seen) != seen_before:
+              viol('NSGA2 hosted in the service: the stored trials-seen counter does not follow the completed trials (phase is lost across requests)',
+                   {'space': repr(prob.search_space)[:400], 'steps': steps, 'restarts_before_step': restarts, 'completed_before_request': seen_before,
+                    'stored_counter': seen})
+              break
+      except Exception as e:  # pylint: disable=broad-except
+        viol('%s hosted in the service stopped working (%s)' % (algo, type(e).__name__),
+             {'space': repr(prob.search_space)[:400], 'steps': steps, 'restarts_before_step': restarts, 'error': str(e)[:400]})
   finally:
     shutil.rmtree(scratch, ignore_errors=True)
 
